@@ -219,7 +219,8 @@ func runCheck(args []string) int {
 	if cc.Module != "" {
 		modulePath = cc.Module
 	}
-	workDir := filepath.Join(verifDir, ".work", cc.Property)
+	workDir := filepath.Join(verifDir, ".work", cc.Property+"-"+o.tier+"-"+strconv.Itoa(os.Getpid()))
+	defer os.RemoveAll(workDir)
 	os.MkdirAll(workDir, 0o755)
 	var known []KnownFinding
 	if kd, err := os.ReadFile(filepath.Join(verifDir, "known_findings.json")); err == nil {
